@@ -27,8 +27,9 @@ func init() {
 // arrayLiteralLabel: in an encoder, the constant stored at index 0 of the
 // array/slice that is marshalled, and the array's arity (base, variable).
 func encoderShape(fn *ssa.Function) (label string, arity int, variable bool, ok bool) {
-	an.Instrs(fn, func(in ssa.Instruction) {
-		st, isStore := in.(*ssa.Store)
+	// the array/slice may be filled in the encoder or in a private helper it calls
+	an.Region(fn, nil, func(o an.Occ) {
+		st, isStore := o.In.(*ssa.Store)
 		if !isStore {
 			return
 		}
@@ -40,7 +41,7 @@ func encoderShape(fn *ssa.Function) (label string, arity int, variable bool, ok 
 		if !isK || k != 0 {
 			return
 		}
-		s, isS := an.ConstStr(st.Val)
+		s, isS := an.ConstStr(o.Resolve(st.Val))
 		if !isS {
 			return
 		}
@@ -53,6 +54,8 @@ func encoderShape(fn *ssa.Function) (label string, arity int, variable bool, ok 
 			if b, isB := x.Len.(*ssa.BinOp); isB && b.Op == token.ADD {
 				if n, isN := an.ConstInt(b.X); isN {
 					label, arity, variable, ok = s, int(n), true, true
+				} else if n, isN := an.ConstInt(b.Y); isN {
+					label, arity, variable, ok = s, int(n), true, true
 				}
 			}
 		}
@@ -60,29 +63,89 @@ func encoderShape(fn *ssa.Function) (label string, arity int, variable bool, ok 
 	return
 }
 
-// decoderShape: label constants compared for inequality and the arity test.
+// decoderShape: what a decoder requires in order to succeed (return a nil
+// error): the label its first element must equal, and the number of elements
+// — exactly k, or at least k. Read off the conditions of the success paths,
+// so the spelling of the tests (!=, <, switch, early returns) does not matter.
 func decoderShape(fn *ssa.Function) (labels []string, arity int, atLeast bool, ok bool) {
-	an.Instrs(fn, func(in ssa.Instruction) {
-		b, isB := in.(*ssa.BinOp)
-		if !isB {
-			return
+	var succ []an.Path
+	for _, rb := range an.ReturnBlocks(fn) {
+		rv := an.ReturnValues(an.LastInstr(rb).(*ssa.Return))
+		if len(rv) == 0 || !an.IsNilConst(rv[len(rv)-1]) {
+			continue
 		}
-		if b.Op == token.NEQ {
-			if s, isS := an.ConstStr(b.Y); isS {
-				labels = append(labels, s)
+		ps, okp := an.PathsTo(fn, rb, 4096)
+		if !okp {
+			return nil, 0, false, false
+		}
+		for _, p := range ps {
+			if an.Feasible(p) {
+				succ = append(succ, p)
 			}
 		}
-		if strings.HasPrefix(an.PathOf(b.X), "len(") {
-			if k, isK := an.ConstInt(b.Y); isK {
-				switch b.Op {
-				case token.NEQ:
-					arity, atLeast, ok = int(k), false, true
-				case token.LSS:
-					arity, atLeast, ok = int(k), true, true
+	}
+	lab := map[string]bool{}
+	lenSubj := map[string]bool{}
+	for _, p := range succ {
+		for _, cd := range p.Conds() {
+			cd = an.NormCond(cd)
+			b, isB := cd.V.(*ssa.BinOp)
+			if !isB {
+				continue
+			}
+			for _, side := range []ssa.Value{b.X, b.Y} {
+				other := b.Y
+				if side == b.Y {
+					other = b.X
+				}
+				if s, isS := an.ConstStr(side); isS && (b.Op == token.EQL || b.Op == token.NEQ) {
+					if _, both := an.ConstStr(other); !both && (b.Op == token.EQL) == cd.True {
+						lab[s] = true
+					}
+				}
+				if sp := an.PathOf(side); strings.HasPrefix(sp, "len(") {
+					if _, isK := an.ConstInt(other); isK {
+						lenSubj[sp] = true
+					}
 				}
 			}
 		}
-	})
+	}
+	for l := range lab {
+		labels = append(labels, l)
+	}
+	sort.Strings(labels)
+	// the element count: the length subject whose success set is the most restrictive
+	for sp := range lenSubj {
+		fr := an.ConstFrame(sp)
+		set := an.Empty()
+		for _, p := range succ {
+			// only the paths that decode an array (the `null` shortcut tests nothing)
+			tests := false
+			for _, cd := range p.Conds() {
+				if _, isAtom := fr.Atom(cd.V, cd.True); isAtom {
+					tests = true
+				}
+			}
+			if tests {
+				set = set.Union(fr.PathMeaning(p, nil))
+			}
+		}
+		if len(set) != 1 {
+			continue
+		}
+		lo, hi := set[0].Lo, set[0].Hi
+		switch {
+		case lo == hi && lo > 0:
+			if !ok || !atLeast {
+				arity, atLeast, ok = int(lo), false, true
+			}
+		case hi == an.PosInf && lo > 0:
+			if !ok {
+				arity, atLeast, ok = int(lo), true, true
+			}
+		}
+	}
 	return
 }
 
